@@ -150,3 +150,83 @@ Proof.
   apply declarations_reciprocal; [|exact reciprocal_empty].
   repeat constructor; try (vm_compute; discriminate).
 Qed.
+
+(* ---------- translate: ratios one both ways, offsets opposite ---------- *)
+Lemma tshapes_eqb_eq l l' : tshapes_eqb l l' = true -> l = l'.
+Proof.
+  revert l'. induction l as [|[[[w x] y] v] l IH]; intros [|[[[w' x'] y'] v'] l']; cbn; try discriminate; [reflexivity|].
+  rewrite !andb_true_iff. intros [[[[Hw Hx] Hy] Hv] Hl]. rewrite (IH l' Hl).
+  destruct w, w', x, x', y, y', v, v'; try discriminate; reflexivity.
+Qed.
+
+Theorem shipped_tstores_are_translate stores t o scale degree z :
+  tshapes_eqb stores shipped_tstores = true ->
+  translate_of stores t o scale degree z = (translate_ratios t scale degree, translate_offsets o scale degree z).
+Proof. intros H. rewrite (tshapes_eqb_eq _ _ H). reflexivity. Qed.
+
+Lemma translate_ratios_reciprocal t scale degree :
+  ukey_eqb scale degree = false -> Reciprocal t -> Reciprocal (translate_ratios t scale degree).
+Proof.
+  intros Hsd Ht c d r. unfold translate_ratios. rewrite !tget_tset.
+  destruct (ukey_eqb scale c) eqn:Esc, (ukey_eqb degree d) eqn:Edd, (ukey_eqb degree c) eqn:Edc, (ukey_eqb scale d) eqn:Esd;
+    cbn [andb]; intros H;
+    try (injection H as <-);
+    try (rewrite (keq_right scale c degree Esc), Edc in Hsd; rewrite keq_sym in Hsd; rewrite keq_refl in Hsd; discriminate);
+    try (rewrite <- (keq_right scale c degree Esc) in Edc; rewrite keq_sym, Hsd in Edc; discriminate);
+    try (rewrite <- (keq_right scale d degree Esd) in Edd; rewrite keq_sym, Hsd in Edd; discriminate);
+    try (eexists; split; [reflexivity|reflexivity]; fail);
+    try (apply Ht; exact H).
+Qed.
+
+Definition Opposite (o : table) : Prop :=
+  forall c d z, tget o c d = Some z -> exists z', tget o d c = Some z' /\ z + z' == 0.
+
+Lemma opposite_empty : Opposite [].
+Proof. intros c d z H. discriminate. Qed.
+
+Lemma translate_offsets_opposite o scale degree z :
+  ukey_eqb scale degree = false -> Opposite o -> Opposite (translate_offsets o scale degree z).
+Proof.
+  intros Hsd Ho c d r. unfold translate_offsets. rewrite !tget_tset.
+  destruct (ukey_eqb scale c) eqn:Esc, (ukey_eqb degree d) eqn:Edd, (ukey_eqb degree c) eqn:Edc, (ukey_eqb scale d) eqn:Esd;
+    cbn [andb]; intros H;
+    try (injection H as <-);
+    try (rewrite <- (keq_right scale c degree Esc) in Edc; rewrite keq_sym, Hsd in Edc; discriminate);
+    try (rewrite <- (keq_right scale d degree Esd) in Edd; rewrite keq_sym, Hsd in Edd; discriminate);
+    try (eexists; split; [reflexivity|ring]; fail);
+    try (apply Ho; exact H).
+Qed.
+
+(* a history of declarations of both kinds *)
+Inductive anydecl := DEquate (d : decl) | DTranslate (scale degree : unit3) (z : Q).
+Definition anydecl_ok (d : anydecl) : Prop :=
+  match d with DEquate d => decl_ok d | DTranslate scale degree _ => ukey_eqb scale degree = false end.
+Definition declare_any (st : table * table) (d : anydecl) : table * table :=
+  match d with
+  | DEquate d => (declare (fst st) d, snd st)
+  | DTranslate scale degree z => (translate_ratios (fst st) scale degree, translate_offsets (snd st) scale degree z)
+  end.
+
+Theorem history_tables ds st :
+  Forall anydecl_ok ds -> Reciprocal (fst st) -> Opposite (snd st) ->
+  Reciprocal (fst (fold_left declare_any ds st)) /\ Opposite (snd (fold_left declare_any ds st)).
+Proof.
+  revert st. induction ds as [|d ds IH]; intros st Hok Hr Ho; cbn [fold_left]; [split; assumption|].
+  inversion Hok as [|? ? Hd Hrest]; subst. apply IH; [exact Hrest| |].
+  - destruct d as [[[[ma a] mb] b]|scale degree z]; cbn [declare_any fst].
+    + cbv beta iota delta [anydecl_ok decl_ok] in Hd. destruct Hd as (Hma & Hmb & Hab).
+      cbn [declare]. apply equate_reciprocal; assumption.
+    + apply translate_ratios_reciprocal; assumption.
+  - destruct d as [[[[ma a] mb] b]|scale degree z]; cbn [declare_any snd]; [exact Ho|].
+    apply translate_offsets_opposite; assumption.
+Qed.
+
+(* a scale and its degree convert into each other by opposite shifts: there and back is the identity *)
+Theorem translated_pair_roundtrip o scale degree z m :
+  ukey_eqb scale degree = false ->
+  exists z1 z2, tget (translate_offsets o scale degree z) degree scale = Some z1 /\
+                tget (translate_offsets o scale degree z) scale degree = Some z2 /\ (m * 1 + z1) * 1 + z2 == m.
+Proof.
+  intros Hsd. unfold translate_offsets. exists (- z), z. rewrite !tget_tset, !keq_refl. cbn [andb].
+  rewrite Hsd. cbn [andb]. split; [reflexivity|]. split; [reflexivity|ring].
+Qed.
